@@ -93,7 +93,7 @@ impl World {
 }
 
 /// number of hand-written histories run before the random ones
-pub const N_DIRECTED: usize = 3;
+pub const N_DIRECTED: usize = 4;
 
 pub fn penalty_num(loc: u32, class: u32) -> u32 {
     1000 + loc * 10 + class
@@ -303,7 +303,20 @@ impl<'a> Gen<'a> {
         let mut ops: Vec<HOp> = vec![HOp::Reg { user: 1 }, HOp::Reg { user: 2 }];
         // one tracker reaches 100 confirmations in the very block in which another one's re-broadcast is rejected: the
         // first is refunded, the second is not (three spacings, so that one of them makes the two coincide)
-        {
+        if which == 3 {
+            // the node reports the penalty as already in the chain (mined together with the dispute): no tracker, the
+            // appointment stays; a smaller, undecryptable replacement for it follows while the locator is in the cache
+            ops.push(HOp::Add { user: 1, loc: 3, blob: enc(3, 4097), tsd: 10, sig: SigKind::Valid });
+            let mut send = BTreeMap::new();
+            send.insert(penalty_num(3, 0), SendR::Rpc(-27));
+            ops.push(HOp::Conn { txs: vec![3], send: send.clone(), get: BTreeMap::new() });
+            ops.push(HOp::Sub { user: 1, sig: SigKind::Valid });
+            ops.push(HOp::Add { user: 1, loc: 3, blob: BlobSpec::Junk { tag: 7, len: 100 }, tsd: 10, sig: SigKind::Valid });
+            ops.push(HOp::Sub { user: 1, sig: SigKind::Valid });
+            ops.push(HOp::Add { user: 1, loc: 3, blob: BlobSpec::Junk { tag: 8, len: 100 }, tsd: 10, sig: SigKind::Valid });
+            ops.push(HOp::Sub { user: 1, sig: SigKind::Valid });
+            ops.push(empty());
+        } else {
             ops.push(HOp::Add { user: 1, loc: 1, blob: enc(1, 260), tsd: 10, sig: SigKind::Valid });
             ops.push(HOp::Add { user: 2, loc: 2, blob: enc(2, if which == 1 { 4097 } else { 260 }), tsd: 10, sig: SigKind::Valid });
             ops.push(conn(vec![1]));
